@@ -106,6 +106,8 @@ class Sym:
         self.locals = set(locals_)
         self._cenv = {n: UNKNOWN for n in self.locals}
         self.inline = None     # optional hook: (sym, call node) -> Lin | None, inlines small pure package helpers
+        self.scope = ""        # prefix of unbound local names inside an inlined helper frame
+        self.call_values: Dict[int, Lin] = {}   # id(call node) -> value returned by a helper the path inlined
 
     @staticmethod
     def for_function(prog: Program, fn) -> "Sym":
@@ -122,15 +124,27 @@ class Sym:
                 names.add(n.id)
             elif isinstance(n, ast.ExceptHandler) and n.name:
                 names.add(n.name)
+        globs = set()
         for n in ast.walk(fn.node):
             if isinstance(n, ast.Global):
                 names -= set(n.names)
-        return Sym(prog, fn.module, None, names)
+                globs |= set(n.names)
+        s = Sym(prog, fn.module, None, names)
+        for g in globs:
+            s._cenv[g] = UNKNOWN       # a module variable the function rebinds is not a constant
+        return s
 
     def copy(self) -> "Sym":
         s = Sym(self.prog, self.mod, self.env, self.locals)
         s.inline = self.inline
+        s.scope = self.scope
+        s.call_values = self.call_values
         return s
+
+    def set_function(self, fn) -> None:
+        """Switch constant evaluation / locals to another function (entering or leaving an inlined helper)."""
+        other = Sym.for_function(self.prog, fn)
+        self.mod, self.locals, self._cenv = other.mod, other.locals, other._cenv
 
     def bind(self, name: str, value: Any):
         self.env[name] = value
@@ -162,7 +176,7 @@ class Sym:
             if e.id in self.env:
                 v = self.env[e.id]
                 return v if isinstance(v, Lin) else Lin.of_term(v)
-            return Lin.of_term(("var", e.id))
+            return Lin.of_term(("var", self.scope + e.id if e.id in self.locals else e.id))
         if isinstance(e, ast.Attribute):
             if isinstance(e.value, ast.Name):
                 k = "%s.%s" % (e.value.id, e.attr)
@@ -210,6 +224,8 @@ class Sym:
             return Lin.of_term(("byte", base, self.lin(e.slice)))
         if isinstance(e, ast.Call):
             f = e.func
+            if id(e) in self.call_values:
+                return self.call_values[id(e)]
             if isinstance(f, ast.Name) and f.id == "len" and len(e.args) == 1:
                 return Lin.of_term(("len", self.term(e.args[0])))
             if isinstance(f, ast.Name) and f.id in ("int", "float", "bytes", "bytearray", "memoryview") and len(e.args) == 1 and not e.keywords:
@@ -490,3 +506,26 @@ def contradicts(assume: List[Fact], f: Fact) -> bool:
         opp = "falsy" if f.kind == "truthy" else "truthy"
         return any(a.kind == opp and a.data == f.data for a in assume)
     return False
+
+
+def joint_contradiction(assume: List[Fact], facts: List[Fact]) -> Optional[Fact]:
+    """A fact of the path (or the union of its exclusions on one term: ``x != a`` and ``x != b`` against x in {a, b})
+    that the assumptions make impossible; None when the path is not refuted."""
+    for f in facts:
+        if contradicts(assume, f):
+            return f
+    excl: Dict[Tuple, set] = {}
+    for f in facts:
+        if f.kind == "ne" and f.lin is not None:
+            for t, c in f.lin.terms.items():
+                if abs(c) == 1:
+                    rest = (f.lin - Lin({t: c})).scale(Fraction(-1) / c)
+                    if rest.is_const() and rest.const.denominator == 1:
+                        excl.setdefault(t, set()).add(int(rest.const))
+        elif f.kind == "notin" and f.lin is not None and f.lin.single_term() is not None:
+            excl.setdefault(f.lin.single_term(), set()).update(f.data)
+    for t, ex in excl.items():
+        allowed, excluded, _ = domain_constraints(assume, t)
+        if allowed is not None and allowed <= (ex | excluded):
+            return Fact("notin", Lin.of_term(t), frozenset(ex))
+    return None
